@@ -61,6 +61,14 @@ pub struct C19Scn {
     /// `--filename b --output a`, ...) instead of rewriting one file in place
     #[serde(default)]
     pub pingpong: bool,
+    /// true: every run cleans the untouched source into the same separate output file
+    /// (`--filename a --output b` each time, as a build step would): each run is a one-shot run
+    /// whose destination already holds an earlier result
+    #[serde(default)]
+    pub rebuild: bool,
+    /// true: in-place runs name the output by another spelling of the input path (`./x` for `x`)
+    #[serde(default)]
+    pub alias_spelling: bool,
     /// true: the history is a *library session* (stepwise `clean` calls on one thread of one
     /// process) instead of CLI executions rewriting a file; crashes and I/O plans do not apply
     #[serde(default)]
@@ -236,7 +244,9 @@ pub fn generate(seed: u64) -> C19Scn {
     }
     let session = rng.chance(1, 5);
     let pingpong = !session && rng.chance(1, 6);
-    C19Scn { doc, offset, initial_targets, flag_targets, events, session, pingpong }
+    let rebuild = !session && !pingpong && rng.chance(1, 8);
+    let alias_spelling = !session && !pingpong && !rebuild && rng.chance(1, 4);
+    C19Scn { doc, offset, initial_targets, flag_targets, events, session, pingpong, rebuild, alias_spelling }
 }
 
 /// (Until the tokenizer's end-offset defect was repaired - F6 - documents ending in a
@@ -245,7 +255,8 @@ pub fn avoid_known_c01_panic(_doc: &mut Doc) {}
 
 fn tick_exec(scn: &C19Scn, t: &Tick, input: &str, output: &str) -> Exec {
     let d = &scn.doc;
-    let mut argv: Vec<String> = vec!["chiritori".into(), "--filename".into(), input.into(), "--output".into(), output.into()];
+    let spelled_output = if scn.alias_spelling && input == output { format!("./{}", output.replacen('/', "//", 1)) } else { output.to_string() };
+    let mut argv: Vec<String> = vec!["chiritori".into(), "--filename".into(), input.into(), "--output".into(), spelled_output];
     argv.push(format!("--removal-marker-target-config={}", CFG));
     for f in &scn.flag_targets {
         argv.push(format!("--removal-marker-target-name={}", f));
@@ -268,7 +279,7 @@ fn tick_exec(scn: &C19Scn, t: &Tick, input: &str, output: &str) -> Exec {
             decoy.clone()
         }
     };
-    Exec { argv, stdin: StdinSpec::Tty, env: t.env.clone(), clock, io: t.io.clone(), stdout_tty: false, sizeless: vec![] }
+    Exec { argv, stdin: StdinSpec::Tty, env: t.env.clone(), clock, io: t.io.clone(), stdout_tty: false, sizeless: vec![], mtimes: Default::default() }
 }
 
 /// The instants the run may have used as "now" (a sound envelope when the
@@ -457,9 +468,15 @@ pub fn run(scn: &C19Scn, stats: &mut RunStats) -> Option<Violation> {
     fs.insert(SRC.to_string(), orig.clone().into_bytes());
     // the file that holds the current state, and the file the next run writes
     let mut cur: String = SRC.to_string();
-    let mut nxt: String = if scn.pingpong { SRC_B.to_string() } else { SRC.to_string() };
+    let mut nxt: String = if scn.pingpong || scn.rebuild { SRC_B.to_string() } else { SRC.to_string() };
     if scn.pingpong {
         stats.bump("probe_pingpong_history");
+    }
+    if scn.rebuild {
+        stats.bump("probe_rebuild_history");
+    }
+    if scn.alias_spelling {
+        stats.bump("probe_output_spelled_differently_from_input");
     }
     let mut cfg_text = String::new();
     for t in &scn.initial_targets {
@@ -545,7 +562,7 @@ pub fn run(scn: &C19Scn, stats: &mut RunStats) -> Option<Violation> {
                     Status::Crash("before_open_write") => {
                         stats.bump("crash_before_commit_fired");
                         perturbed = true;
-                        if !scn.pingpong && after != before {
+                        if !scn.pingpong && !scn.rebuild && after != before {
                             stats.bump("probe_crash_before_commit_changed_file");
                         }
                         last_committed_removed = false;
@@ -826,6 +843,16 @@ pub fn shrink_candidates(s: &C19Scn) -> Vec<C19Scn> {
         c.pingpong = false;
         out.push(c);
     }
+    if s.rebuild {
+        let mut c = s.clone();
+        c.rebuild = false;
+        out.push(c);
+    }
+    if s.alias_spelling {
+        let mut c = s.clone();
+        c.alias_spelling = false;
+        out.push(c);
+    }
     if s.offset != "+00:00" {
         // keep the wall-clock `to` strings, move to UTC: only valid if the violation persists
         let mut c = s.clone();
@@ -868,7 +895,7 @@ pub fn sample(s: &C19Scn) -> serde_json::Value {
         .map(|e| match e {
             Event::ConfigGrows { name } => serde_json::json!({"config_grows": name}),
             Event::Tick(t) => {
-                let ex = tick_exec(s, t, SRC, if s.pingpong { SRC_B } else { SRC });
+                let ex = tick_exec(s, t, SRC, if s.pingpong || s.rebuild { SRC_B } else { SRC });
                 serde_json::json!({"tick": t.label, "now": [t.now.0, t.now.1], "argv": ex.argv, "env": ex.env, "clock": [ex.clock.sec, ex.clock.nsec, ex.clock.tick_ns], "io_plan": t.io})
             }
         })
